@@ -667,7 +667,15 @@ async fn present(h: &mut H, acc: &mut Acc, _rng: &mut Rng, ti: usize, y: usize) 
             acc.violation(&sig, wit);
         } else {
             acc.count(&format!("accepted.{uk}"));
-            acc.nontrivial(&format!("acc|{uk}|{}|{}|{}", y, t.issuer, h.rotated_after(t.obj, t.seq)));
+            acc.nontrivial(&format!(
+                "acc|{uk}|{}|{}|{}|{}|{}|{}",
+                t.kid,
+                y,
+                t.issuer,
+                h.rotations.iter().filter(|(o, s)| *o == t.obj && *s > t.seq).count().min(4),
+                y == A && h.reloads_a.iter().any(|s| *s > t.seq),
+                h.rev_any.contains(&key)
+            ));
             if h.rotated_after(t.obj, t.seq) {
                 acc.count(&format!("accepted_older_key_after_rotation.{uk}"));
             }
@@ -686,7 +694,7 @@ async fn present(h: &mut H, acc: &mut Acc, _rng: &mut Rng, ti: usize, y: usize) 
         let reloaded = y == A && h.reloads_a.iter().any(|s| *s > since);
         acc.count(&format!("rejected_revoked.{uk}"));
         acc.count(&format!("rejected_revoked.{}{}", if by_repl { "replicated" } else { "local" }, if reloaded { ".after_reload" } else { "" }));
-        acc.nontrivial(&format!("rej|{uk}|{y}|{by_repl}|{reloaded}"));
+        acc.nontrivial(&format!("rej|{uk}|{}|{y}|{by_repl}|{reloaded}", t.kid));
     } else {
         // refused although the key is not known as revoked here: is everything else in order?
         let mut reasons: Vec<&str> = Vec::new();
